@@ -608,7 +608,6 @@ func (st *c09State) refreshList(r *sysRun) {
 		items = append(items, frozenItem{Index: int32(i), Text: st.lines[i]})
 	}
 	mc := r.plan.Match
-	mc.forcePos = true
 	cur, had := m.current()
 	hadList := st.listValid
 	m.list = indicesOf(freshFilter(items, string(m.query), mc))
@@ -742,6 +741,20 @@ func c09Settle(r *sysRun, st *c09State, busy bool, final bool) {
 		}
 		// Within a burst (no settle in between) an action that looks at the list runs against whatever
 		// list fzf had at that instant, which is legitimately unknown after a query change in the same burst.
+		if !isEditAction(ev.Tag) {
+			// a key delivered before the session ever came to rest (a minimised plan may lack the initial
+			// settle) meets a list that is still loading
+			rested := false
+			for k := 0; k < i; k++ {
+				if r.plan.Events[k].Kind == "settle" {
+					rested = true
+					break
+				}
+			}
+			if !rested {
+				st.listExact = false
+			}
+		}
 		if burstQueryChanged && !isEditAction(ev.Tag) {
 			st.listExact = false
 		}
